@@ -8,6 +8,8 @@ driver for the error-classification model (engine `errno`, C25)
   classify-orig <site> <cls> <arg0> <cutoff> <open> → the same for the ladders as found (D13, D26)
   classify2 <site> <cls> <arg0> <cutoff> <open>     → the same with fixes/D26b as well
   connect <code>                                    → accepted | reopenRetry | retry
+  gramseq <version> <entry,entry,…> <id:dest,…> <answers…>   → one `ok|raised sent= q= left=` per pass, joined by ` ; `
+  sess <version> <tls 0|1> <reopen|close|r:ok|s:ok|r:cls:arg0|s:cls:arg0 …>  → a client through close/re-open cycles
   gram <version> <entry> <id:dest,…> <ok|cls:arg0 …>  → `ok|raised sent=<id:dest,…> q=<id:dest,…>` (stack transmit entry points)
   region <finding> <site> <cls> <arg0>              → 1 | 0   (Lean region predicate of a known finding)
 -/
@@ -102,6 +104,36 @@ def step (_ : Unit) (line : String) : Unit × String :=
       | .ok sent queue => ((), "ok sent=" ++ showPkts sent ++ " q=" ++ showPkts queue)
       | .raised sent queue => ((), "raised sent=" ++ showPkts sent ++ " q=" ++ showPkts queue)
     | _, _, _, _ => ((), "bad-op")
+  | "gramseq" :: ver :: entries :: pk :: ans =>
+    match (if ver == "fixed" then some Version.fixed else if ver == "fixed2" then some Version.fixed2
+           else if ver == "orig" then some Version.orig else none),
+          (entries.splitOn ",").foldr (fun w acc => match acc, entry? w with
+            | some l, some e => some (e :: l) | _, _ => none) (some []), pkts? pk, answers? ans with
+    | some v, some ens, some q, some sc =>
+      ((), " ; ".intercalate ((gramPasses v ens q sc).map fun r =>
+        (if r.1.isOk then "ok" else "raised") ++ " sent=" ++ showPkts r.1.sent ++ " q=" ++ showPkts r.1.queue
+          ++ " left=" ++ toString r.2))
+    | _, _, _, _ => ((), "bad-op")
+  | "sess" :: ver :: tls :: toks =>
+    let op? (t : String) : Option SessOp :=
+      if t == "close" then some .close else if t == "reopen" then some .reopen else
+      match t.splitOn ":" with
+      | [d, "ok"] => if d == "r" then some (.io false none) else if d == "s" then some (.io true none) else none
+      | [d, c, n] =>
+        match cls? c, n.toNat? with
+        | some c, some n =>
+          if d == "r" then some (.io false (some ⟨c, n⟩)) else if d == "s" then some (.io true (some ⟨c, n⟩)) else none
+        | _, _ => none
+      | _ => none
+    match (if ver == "fixed" then some Version.fixed else if ver == "fixed2" then some Version.fixed2
+           else if ver == "orig" then some Version.orig else none), bool? tls,
+          toks.foldr (fun w acc => match acc, op? w with | some l, some o => some (o :: l) | _, _ => none) (some []) with
+    | some v, some tls, some ops =>
+      ((), " ; ".intercalate ((sessRun v { tls := tls } ops).map fun o => match o with
+        | .done k => s!"done:{k}"
+        | .classified k r c => s!"cls:{k}:{retName r}:{b01 c}"
+        | .noSocket => "nosock" | .closed => "closed" | .opened k => s!"opened:{k}"))
+    | _, _, _ => ((), "bad-op")
   | ["connect", code] =>
     match code.toNat? with
     | some c => ((), match connect c with
